@@ -1,7 +1,618 @@
-/- C19: model not built yet (stub so that the per-property driver links). -/
+/-
+C19 — channel identity.  Transcription of
+
+* `rcCode` and the `RowColCode` accessors (data_source.go),
+* `LanceroSource.PrepareChannels` (validation of the card/column separations, the state change a
+  rejection makes, and the numbering loop),
+* the group bookkeeping of `AbacoSource.Sample` (map of groups, overlap check, sort) and
+  `AbacoSource.PrepareChannels`,
+* `TriangleSource/SimPulseSource.Sample` + the default `AnySource.PrepareChannels`,
+* `RoachSource.PrepareChannels`,
+* channel-name and output-file-name formation (`fmt.Sprintf("err%d"/"chan%d")`, the `%s.%s` tail of the
+  file-name pattern in `writeControlStart`) and the identity handed to the file writers.
+
+Go `int` is modelled as `Int` (no 64-bit overflow), geometry sizes as `Nat`.
+Core Lean only.
+-/
 import DastardV.Proto
 namespace DastardV.C19
 
-def runLine (_ts : List String) : Verdict := .bad "C19: model not built yet"
+/-! ### Row/column code -/
+
+/-- `rcCode(row, col, rows, cols)`: four 16-bit fields, `cols` highest. -/
+def rcCode (row col rows cols : Nat) : Nat :=
+  (((cols % 65536) * 65536 + rows % 65536) * 65536 + col % 65536) * 65536 + row % 65536
+
+def rcRow (c : Nat) : Nat := c % 65536
+def rcCol (c : Nat) : Nat := c / 65536 % 65536
+def rcRows (c : Nat) : Nat := c / 4294967296 % 65536
+def rcCols (c : Nat) : Nat := c / 281474976710656 % 65536
+
+/-! ### Names -/
+
+def digitChar (d : Nat) : Char := Char.ofNat (48 + d)
+
+/-- decimal digits, least significant first (`fuel > n` is always enough) -/
+def natDigitsRev : Nat → Nat → List Char
+  | 0, _ => []
+  | f + 1, n => if n < 10 then [digitChar n] else digitChar (n % 10) :: natDigitsRev f (n / 10)
+
+def natDigits (n : Nat) : List Char := (natDigitsRev (n + 1) n).reverse
+
+/-- Go's `%d` -/
+def fmtInt (i : Int) : List Char :=
+  if i < 0 then '-' :: natDigits i.natAbs else natDigits i.toNat
+
+def errPfx : List Char := ['e', 'r', 'r']
+def chanPfx : List Char := ['c', 'h', 'a', 'n']
+
+/-- `fmt.Sprintf("err%d", n)` / `fmt.Sprintf("chan%d", n)` -/
+def chanName (isErr : Bool) (num : Int) : List Char :=
+  (if isErr then errPfx else chanPfx) ++ fmtInt num
+
+def extLJH : List Char := ['l', 'j', 'h']
+def extOFF : List Char := ['o', 'f', 'f']
+def extLJH3 : List Char := ['l', 'j', 'h', '3']
+
+/-- `fmt.Sprintf(filenamePattern, name, ext)` with `filenamePattern = pfx ++ "%s.%s"` -/
+def fileName (pfx name ext : List Char) : List Char := pfx ++ name ++ '.' :: ext
+
+/-! ### Tables -/
+
+structure Stream where
+  name : List Char
+  num : Int
+  code : Nat
+deriving DecidableEq, Repr
+
+structure Group where
+  first : Int
+  n : Nat
+deriving DecidableEq, Repr
+
+structure Tables where
+  nchan : Nat
+  streams : List Stream
+  groups : List Group
+deriving DecidableEq, Repr
+
+def Group.range (g : Group) : List Int := (List.range g.n).map (fun (r : Nat) => g.first + (r : Int))
+
+def mkStream (isErr : Bool) (num : Int) (row col rows cols : Nat) : Stream :=
+  { name := chanName isErr num, num := num, code := rcCode row col rows cols }
+
+/-! ### Lancero -/
+
+structure Dev where
+  devnum : Int
+  ncols : Nat
+  nrows : Nat
+deriving DecidableEq, Repr
+
+structure LCfg where
+  firstRow : Int
+  sepCards : Int
+  sepCols : Int
+  devs : List Dev
+deriving DecidableEq, Repr
+
+inductive LErr where
+  | negCards | negCols | rowsExceedColSep | colsExceedCardSep
+deriving DecidableEq, Repr
+
+/-- column separation used for the card-separation check -/
+def colsep (sepCols : Int) (d : Dev) : Int := if sepCols > 0 then sepCols else d.nrows
+
+/-- the validation at the top of `PrepareChannels`; `none` = accepted -/
+def lanceroValidate (c : LCfg) : Option LErr :=
+  if c.sepCards < 0 then some .negCards
+  else if c.sepCols < 0 then some .negCols
+  else if c.sepCols > 0 ∧ c.devs.any (fun d => decide ((d.nrows : Int) > c.sepCols)) then some .rowsExceedColSep
+  else if c.sepCards > 0 ∧ c.devs.any (fun d => decide (colsep c.sepCols d * d.ncols > c.sepCards)) then
+    some .colsExceedCardSep
+  else none
+
+/-- the configuration the source is left with after a rejection (`ls.chanSepColumns = 0` on both
+size errors) -/
+def afterReject (c : LCfg) : LErr → LCfg
+  | .rowsExceedColSep => { c with sepCols := 0 }
+  | .colsExceedCardSep => { c with sepCols := 0 }
+  | _ => c
+
+/-- one detector pixel = an error stream and a feedback stream -/
+structure Pixel where
+  card : Nat
+  col : Nat
+  row : Nat
+  nrows : Nat
+  ncols : Nat
+  num : Int
+deriving DecidableEq, Repr
+
+/-- `for row := 0; row < nrows; row++ { … cnum++ }`: pixels and the final `cnum` -/
+def rowLoop (card col nrows ncols : Nat) : Nat → Nat → Int → List Pixel × Int
+  | 0, _, cnum => ([], cnum)
+  | k + 1, row, cnum =>
+    let r := rowLoop card col nrows ncols k (row + 1) (cnum + 1)
+    ({ card, col, row, nrows, ncols, num := cnum } :: r.1, r.2)
+
+/-- loop state: `cnum`, `thisColFirstCnum` -/
+structure St where
+  cnum : Int
+  tcf : Int
+deriving DecidableEq, Repr
+
+structure Acc where
+  groups : List Group
+  pixels : List Pixel
+deriving DecidableEq, Repr
+
+/-- `for col := 0; col < ncols; col++ { … }` of one device -/
+def colLoop (sepCols : Int) (card nrows ncols : Nat) : Nat → Nat → St → Acc × St
+  | 0, _, s => (⟨[], []⟩, s)
+  | k + 1, col, s =>
+    let cnum1 := if sepCols > 0 then s.tcf + sepCols else s.cnum
+    let rows := rowLoop card col nrows ncols nrows 0 cnum1
+    let rest := colLoop sepCols card nrows ncols k (col + 1) { cnum := rows.2, tcf := cnum1 }
+    (⟨{ first := cnum1, n := nrows } :: rest.1.groups, rows.1 ++ rest.1.pixels⟩, rest.2)
+
+/-- `for _, device := range ls.active { … }` -/
+def devLoop (c : LCfg) : List Dev → Nat → St → Acc
+  | [], _, _ => ⟨[], []⟩
+  | d :: ds, card, s =>
+    let s1 : St := if c.sepCards > 0 then
+        { cnum := d.devnum * c.sepCards + c.firstRow, tcf := d.devnum * c.sepCards + c.firstRow - c.sepCols }
+      else s
+    let cl := colLoop c.sepCols card d.nrows d.ncols d.ncols 0 s1
+    let rest := devLoop c ds (card + 1) cl.2
+    ⟨cl.1.groups ++ rest.groups, cl.1.pixels ++ rest.pixels⟩
+
+/-- the numbering loop without the validation in front of it -/
+def lanceroLoop (c : LCfg) : Acc :=
+  devLoop c c.devs 0 { cnum := c.firstRow, tcf := c.firstRow - c.sepCols }
+
+def Pixel.streams (p : Pixel) : List Stream :=
+  [mkStream true p.num p.row p.col p.nrows p.ncols, mkStream false p.num p.row p.col p.nrows p.ncols]
+
+def lanceroNchan (devs : List Dev) : Nat := (devs.map (fun d => d.ncols * d.nrows * 2)).sum
+
+def lanceroTables (c : LCfg) : Tables :=
+  let a := lanceroLoop c
+  { nchan := lanceroNchan c.devs, streams := a.pixels.flatMap Pixel.streams, groups := a.groups }
+
+/-- `LanceroSource.PrepareChannels` -/
+def lanceroPrepare (c : LCfg) : Except LErr Tables :=
+  match lanceroValidate c with
+  | some e => .error e
+  | none => .ok (lanceroTables c)
+
+/-- the configuration after one call -/
+def lanceroNext (c : LCfg) : LCfg :=
+  match lanceroValidate c with
+  | some e => afterReject c e
+  | none => c
+
+/-- the true geometry of stream positions: (row, col, rows, cols), one entry per pixel -/
+def devGeom (d : Dev) : List (Nat × Nat × Nat × Nat) :=
+  (List.range d.ncols).flatMap fun col => (List.range d.nrows).map fun row => (row, col, d.nrows, d.ncols)
+
+def lanceroGeom (devs : List Dev) : List (Nat × Nat × Nat × Nat) := devs.flatMap devGeom
+
+/-! ### Sorting, duplicate detection -/
+
+def insertG (g : Group) : List Group → List Group
+  | [] => [g]
+  | h :: t => if g.first ≤ h.first then g :: h :: t else h :: insertG g t
+
+/-- `sort.Sort(ByGroup(keys))` — by first channel (the result is unique when first channels differ) -/
+def sortG : List Group → List Group
+  | [] => []
+  | g :: t => insertG g (sortG t)
+
+def strictAdj : List Int → Bool
+  | a :: b :: r => decide (a < b) && strictAdj (b :: r)
+  | _ => true
+
+/-- no value occurs twice (sort, then compare neighbours) -/
+def dupFree (l : List Int) : Bool := strictAdj (l.mergeSort (fun a b => decide (a ≤ b)))
+
+def dedupAdj : List Int → List Int
+  | a :: b :: r => if a = b then dedupAdj (b :: r) else a :: dedupAdj (b :: r)
+  | l => l
+
+/-- the two lists have the same set of values -/
+def sameSet (a b : List Int) : Bool :=
+  dedupAdj (a.mergeSort (fun x y => decide (x ≤ y))) == dedupAdj (b.mergeSort (fun x y => decide (x ≤ y)))
+
+/-! ### Abaco -/
+
+/-- keys of the `groups` map after all sampled packets were seen (first occurrence order; the order is
+irrelevant for everything that follows) -/
+def abacoKeys : List Group → List Group
+  | [] => []
+  | g :: t => g :: (abacoKeys t).filter (fun h => h != g)
+
+def allChans (gs : List Group) : List Int := gs.flatMap Group.range
+
+/-- "Verify that no channel # appears in 2 groups." -/
+def abacoOverlap (keys : List Group) : Bool := !dupFree (allChans keys)
+
+def abacoCols (ncol : Nat) : List Group → Nat → List Stream
+  | [], _ => []
+  | g :: gs, col =>
+    (List.range g.n).map (fun (row : Nat) => mkStream false ((row : Int) + g.first) row col g.n ncol)
+      ++ abacoCols ncol gs (col + 1)
+
+def abacoNchan (keys : List Group) : Nat := (keys.map (·.n)).sum
+
+/-- `Sample` (group bookkeeping) then `PrepareChannels`; `none` = rejected by the overlap check -/
+def abacoPrepare (pkts : List Group) : Option Tables :=
+  let keys := abacoKeys pkts
+  if abacoOverlap keys then none else
+  let sorted := sortG keys
+  some { nchan := abacoNchan keys, streams := abacoCols keys.length sorted 0, groups := sorted }
+
+def abacoGeomAux (ncol : Nat) : List Group → Nat → List (Nat × Nat × Nat × Nat)
+  | [], _ => []
+  | g :: gs, col => (List.range g.n).map (fun row => (row, col, g.n, ncol)) ++ abacoGeomAux ncol gs (col + 1)
+
+/-- the true geometry: each group is a column, groups ordered by first channel -/
+def abacoGeom (pkts : List Group) : List (Nat × Nat × Nat × Nat) :=
+  let keys := abacoKeys pkts
+  abacoGeomAux keys.length (sortG keys) 0
+
+/-! ### Simulated sources (default `AnySource.PrepareChannels`) and ROACH -/
+
+/-- `Configure` (rejects `nchan < 1`), `Sample`, `AnySource.PrepareChannels` -/
+def genericPrepare (nchan : Int) : Option Tables :=
+  if nchan < 1 then none else
+  let n := nchan.toNat
+  some { nchan := n,
+         streams := (List.range n).map (fun (i : Nat) => mkStream false (i : Int) 0 i 1 n),
+         groups := [{ first := 0, n := n }] }
+
+def genericGeom (n : Nat) : List (Nat × Nat × Nat × Nat) := (List.range n).map fun i => (0, i, 1, n)
+
+/-- `RoachSource.PrepareChannels` -/
+def roachPrepare (n : Nat) : Tables :=
+  { nchan := n,
+    streams := (List.range n).map (fun (i : Nat) => mkStream false (i : Int) i 0 n 1),
+    groups := [{ first := 0, n := n }] }
+
+def roachGeom (n : Nat) : List (Nat × Nat × Nat × Nat) := (List.range n).map fun i => (i, 0, n, 1)
+
+/-! ### What a START hands to the file writers -/
+
+structure FileId where
+  ljh : List Char       -- file names without the directory/date/run prefix
+  ljh3 : List Char
+  chanName : List Char
+  chanNum : Int
+  row : Nat
+  col : Nat
+  rows : Nat
+  cols : Nat
+deriving DecidableEq, Repr
+
+/-- `writeControlStart`: names from `dsp.Name = chanNames[i]`, geometry decoded from `rowColCodes[i]` -/
+def startFiles (pfx : List Char) (t : Tables) : List FileId :=
+  t.streams.map fun s =>
+    { ljh := fileName pfx s.name extLJH, ljh3 := fileName pfx s.name extLJH3, chanName := s.name, chanNum := s.num,
+      row := rcRow s.code, col := rcCol s.code, rows := rcRows s.code, cols := rcCols s.code }
+
+/-! ### Inputs, outputs, oracle -/
+
+inductive Input where
+  | lancero (c : LCfg)
+  | abaco (pkts : List Group)
+  | generic (nchan : Int)
+  | roach (nchan : Nat)
+deriving Repr
+
+def Input.isTDM : Input → Bool
+  | .lancero _ => true
+  | _ => false
+
+/-- true geometry per *pixel* (Lancero: two streams per pixel) -/
+def Input.geom : Input → List (Nat × Nat × Nat × Nat)
+  | .lancero c => lanceroGeom c.devs
+  | .abaco p => abacoGeom p
+  | .generic n => genericGeom n.toNat
+  | .roach n => roachGeom n
+
+/-- the model: `none` = configuration rejected -/
+def Input.model : Input → Option Tables
+  | .lancero c => (lanceroPrepare c).toOption
+  | .abaco p => abacoPrepare p
+  | .generic n => genericPrepare n
+  | .roach n => some (roachPrepare n)
+
+def evens {α} : List α → List α
+  | a :: _ :: r => a :: evens r
+  | l => l
+
+def odds {α} : List α → List α
+  | _ :: b :: r => b :: odds r
+  | _ => []
+
+def dup2 {α} (l : List α) : List α := l.flatMap fun x => [x, x]
+
+/-- injective code of a name as a number (for fast duplicate detection) -/
+def encName (cs : List Char) : Nat := cs.foldr (fun c acc => acc * 2097152 + (c.toNat + 1)) 0
+
+def decoded (s : Stream) : Nat × Nat × Nat × Nat := (rcRow s.code, rcCol s.code, rcRows s.code, rcCols s.code)
+
+inductive Bad where
+  | tableLengths | partners | numberCollision | nameCollision | groupsCover | geometry
+  | fileCollision | headerIdentity
+deriving DecidableEq, Repr
+
+/-- The property, clause by clause, on identity tables of an ACCEPTED configuration.
+`tdm` = two streams (error, feedback) per pixel; `geom` = the true geometry per pixel. -/
+def chkTables (tdm : Bool) (geom : List (Nat × Nat × Nat × Nat)) (t : Tables) : Option Bad :=
+  let nums := t.streams.map (·.num)
+  let pix := if tdm then evens nums else nums
+  if t.streams.length ≠ t.nchan then some .tableLengths
+  -- TDM error/feedback partners share one channel number
+  else if tdm ∧ (evens nums ≠ odds nums) then some .partners
+  -- channel numbers of different (card, column, row) never collide
+  else if !dupFree pix then some .numberCollision
+  -- each stream has its own name
+  else if !dupFree (t.streams.map fun s => (encName s.name : Int)) then some .nameCollision
+  -- the reported groups cover exactly the channel numbers in use
+  else if !sameSet pix (allChans t.groups) then some .groupsCover
+  -- the row/column codes decode to the true geometry
+  else if t.streams.map decoded ≠ (if tdm then dup2 geom else geom) then some .geometry
+  else none
+
+/-- The property on what a START gave the file writers, relative to the tables reported as status. -/
+def chkFiles (t : Tables) (fs : List FileId) : Option Bad :=
+  if ¬ (fs.map (·.ljh) ++ fs.map (·.ljh3)).Nodup then some .fileCollision
+  else if fs.map (fun f => (f.chanName, f.chanNum, f.row, f.col, f.rows, f.cols)) ≠
+      t.streams.map (fun s => (s.name, s.num, rcRow s.code, rcCol s.code, rcRows s.code, rcCols s.code)) then
+    some .headerIdentity
+  else none
+
+/-- the whole oracle: a rejected configuration satisfies the property vacuously -/
+def chkC19 (inp : Input) (out : Option Tables) : Option Bad :=
+  match out with
+  | none => none
+  | some t => chkTables inp.isTDM inp.geom t
+
+def Bad.sig : Bad → String
+  | .tableLengths => "C19:table-lengths identity tables of unequal length / not nchan entries"
+  | .partners => "C19:partners an error/feedback pair does not share one channel number"
+  | .numberCollision => "C19:number-collision two different (card,column,row) got the same channel number in an accepted configuration"
+  | .nameCollision => "C19:name-collision two streams share a name (and so an output file name)"
+  | .groupsCover => "C19:groups-cover the reported channel groups do not cover exactly the channel numbers in use"
+  | .geometry => "C19:rccode-geometry a row/column code does not decode to the true geometry (16-bit field overflow)"
+  | .fileCollision => "C19:filename-collision two output files share a name"
+  | .headerIdentity => "C19:header-identity file header identity differs from the reported tables"
+
+/-! ### Driver -/
+
+structure RStream where
+  s : Stream
+  dec : Nat × Nat × Nat × Nat      -- decoded by the real accessors
+deriving Repr
+
+structure ROut where
+  nchanI : Int
+  rs : List RStream
+  groups : List Group
+deriving Repr
+
+def ROut.tables (o : ROut) : Tables :=
+  { nchan := o.nchanI.toNat, streams := o.rs.map (·.s), groups := o.groups }
+
+open P in
+def pName : P (List Char) := do
+  let t ← tok
+  pure t.toList
+
+open P in
+def pStream : P RStream := do
+  let nm ← pName
+  let num ← int
+  let code ← nat
+  let r ← nat; let c ← nat; let rows ← nat; let cols ← nat
+  pure { s := { name := nm, num, code }, dec := (r, c, rows, cols) }
+
+open P in
+def pGroup : P Group := do
+  let f ← int
+  let n ← nat
+  pure { first := f, n }
+
+inductive RRes where
+  | rejected
+  | panic
+  | tables (o : ROut)
+deriving Repr
+
+open P in
+def pRes : P RRes := do
+  let t ← tok
+  match t with
+  | "E" => pure .rejected
+  | "PANIC" => pure .panic
+  | "T" => do
+    let nchan ← int
+    let _cpp ← int
+    let rs ← list pStream
+    kw "G"
+    let gs ← list pGroup
+    pure (.tables { nchanI := nchan, rs, groups := gs })
+  | _ => fail s!"bad result {t}"
+
+inductive RFiles where
+  | none
+  | err
+  | panic
+  | files (fs : List FileId)
+deriving Repr
+
+open P in
+def pFile : P FileId := do
+  let a ← pName; let b ← pName; let c ← pName
+  let num ← int
+  let r ← nat; let cl ← nat; let rows ← nat; let cols ← nat
+  pure { ljh := a, ljh3 := b, chanName := c, chanNum := num, row := r, col := cl, rows, cols }
+
+open P in
+def pFiles : P RFiles := do
+  let e ← atEnd
+  if e then pure .none else
+  let t ← tok
+  match t with
+  | "FERR" => pure .err
+  | "PANIC" => pure .panic
+  | "F" => do
+    let fs ← list pFile
+    if fs.isEmpty then pure .none else pure (.files fs)
+  | _ => fail s!"bad files {t}"
+
+open P in
+def pDev : P Dev := do
+  let d ← int
+  let nc ← nat
+  let nr ← nat
+  pure { devnum := d, ncols := nc, nrows := nr }
+
+/-- judge one reported result against the oracle and the model -/
+def judge (inp : Input) (res : RRes) (what : String) : Except Verdict (Option Tables) :=
+  match res with
+  | .panic => .error (.viol s!"C19:panic the real code panicked ({what})")
+  | .rejected =>
+    match inp.model with
+    | none => .ok none
+    | some _ => .error (.diff s!"{what}: implementation rejected, model accepts")
+  | .tables o =>
+    let t := o.tables
+    if o.nchanI < 0 then .error (.viol (Bad.sig .tableLengths)) else
+    match chkC19 inp (some t) with
+    | some b => .error (.viol b.sig)
+    | none =>
+      match inp.model with
+      | none => .error (.diff s!"{what}: implementation accepted, model rejects")
+      | some m =>
+        if m.nchan ≠ t.nchan then .error (.diff s!"{what}: nchan model {m.nchan} impl {t.nchan}")
+        else if m.groups ≠ t.groups then .error (.diff s!"{what}: groups differ")
+        else if m.streams ≠ t.streams then
+          .error (.diff s!"{what}: streams differ at {(firstDiff m.streams t.streams 0).getD 0}")
+        else if o.rs.any (fun r => decoded r.s != r.dec) then .error (.diff s!"{what}: accessor decode differs")
+        else .ok (some t)
+
+def judgeFiles (t : Option Tables) (f : RFiles) : Except Verdict (List String) :=
+  match f, t with
+  | .none, _ => .ok []
+  | .panic, _ => .error (.viol "C19:panic the real code panicked (START)")
+  | .err, _ => .error (.diff "START returned an error")
+  | .files _, none => .error (.diff "files without tables")
+  | .files fs, some t =>
+    match chkFiles t fs with
+    | some b => .error (.viol b.sig)
+    | none =>
+      if startFiles [] t ≠ fs then .error (.diff "file identity differs from model")
+      else .ok ["start"]
+
+def sizeTag (t : Option Tables) : List String :=
+  match t with
+  | none => []
+  | some t => if t.streams.length ≥ 4 then ["multi"] else if t.streams.length ≥ 1 then ["few"] else ["empty"]
+
+def lanceroTags (c : LCfg) (t1 t2 : Option Tables) : List String :=
+  let v := lanceroValidate c
+  let raw := (lanceroLoop c).pixels.map (·.num)
+  let collide := !dupFree raw
+  (match v with
+    | none => ["accepted"]
+    | some .negCards => ["rej-negcards"]
+    | some .negCols => ["rej-negcols"]
+    | some .rowsExceedColSep => ["rej-colsep-small"]
+    | some .colsExceedCardSep => ["rej-cardsep-small"]) ++
+  (if v.isSome ∧ collide then ["would-collide"] else []) ++
+  (if v.isSome ∧ !collide then ["rejected-safe"] else []) ++
+  (if c.sepCards > 0 then ["sepcards"] else []) ++
+  (if c.sepCols > 0 then ["sepcols"] else []) ++
+  (if c.devs.length > 1 then ["multicard"] else []) ++
+  (if c.sepCards > 0 ∧ ¬ (c.devs.map (·.devnum)).Pairwise (· < ·) then ["cards-unordered"] else []) ++
+  (if c.firstRow ≤ 0 then ["firstrow<=0"] else []) ++
+  (if t1.isNone ∧ t2.isSome then ["retry-accepted"] else []) ++
+  sizeTag t1
+
+def runLine (ts : List String) : Verdict :=
+  let p : P (Input × List RRes × RFiles) := do
+    let k ← P.tok
+    match k with
+    | "L" => do
+      let fr ← P.int; let sc ← P.int; let sl ← P.int
+      let devs ← P.list pDev
+      let _start ← P.nat
+      P.kw "OUT"
+      let t ← P.peek
+      if t == some "PANIC" then
+        let _ ← P.tok
+        pure (.lancero { firstRow := fr, sepCards := sc, sepCols := sl, devs }, [.panic], .none)
+      else
+        let r1 ← pRes
+        let r2 ← pRes
+        let f ← pFiles
+        pure (.lancero { firstRow := fr, sepCards := sc, sepCols := sl, devs }, [r1, r2], f)
+    | "A" => do
+      let prods ← P.list (P.list pGroup)
+      let _start ← P.nat
+      P.kw "OUT"
+      let r ← pRes
+      let f ← pFiles
+      pure (.abaco prods.flatten, [r], f)
+    | "S" => do
+      let _kind ← P.nat
+      let n ← P.int
+      let _start ← P.nat
+      P.kw "OUT"
+      let r ← pRes
+      let f ← pFiles
+      pure (.generic n, [r], f)
+    | "R" => do
+      let n ← P.nat
+      let _start ← P.nat
+      P.kw "OUT"
+      let r ← pRes
+      let f ← pFiles
+      pure (.roach n, [r], f)
+    | _ => P.fail s!"bad kind {k}"
+  match P.run p ts with
+  | .error e => .bad e
+  | .ok (inp, ress, files) =>
+    match inp, ress with
+    | .lancero c, [r1, r2] =>
+      match judge (.lancero c) r1 "call 1" with
+      | .error v => v
+      | .ok t1 =>
+        let c2 := lanceroNext c
+        match judge (.lancero c2) r2 "call 2" with
+        | .error v => v
+        | .ok t2 =>
+          match judgeFiles t2 files with
+          | .error v => v
+          | .ok ft => .ok (["lancero"] ++ lanceroTags c t1 t2 ++ ft)
+    | inp, [r] =>
+      match judge inp r "prepare" with
+      | .error v => v
+      | .ok t =>
+        match judgeFiles t files with
+        | .error v => v
+        | .ok ft =>
+          let kind := match inp with
+            | .lancero _ => "lancero" | .abaco _ => "abaco" | .generic _ => "generic" | .roach _ => "roach"
+          let extra := match inp with
+            | .abaco p =>
+              (if (abacoKeys p).length > 1 then ["multigroup"] else []) ++
+              (if t.isNone then ["would-collide", "rej-overlap"] else ["accepted"]) ++
+              (if (abacoKeys p) ≠ sortG (abacoKeys p) then ["keys-unsorted"] else [])
+            | _ => if t.isNone then ["rejected-safe"] else ["accepted"]
+          .ok ([kind] ++ extra ++ sizeTag t ++ ft)
+    | _, _ => .bad "unexpected number of results"
 
 end DastardV.C19
